@@ -160,7 +160,7 @@ def gen(rng, tier):
     n = 50 if tier == "quick" else 600
     for i in range(n):
         doc = xmlgen.to_xml_loadable(defgen.rnd_definition(rng))
-        xml = xmlgen.document_xml(doc, NS)
+        xml = xmlgen.document_xml(doc, NS, omit_seed=rng.choice([None, rng.randrange(1 << 30)]))
         if i % 2:
             xml = reorder(rng, xml)
         cases.append({"xml": xml, "kind": "valid", "must_reject": False})
